@@ -51,6 +51,7 @@ M = {
     "moveback": {"op": "move", "set": "1", "dst": "INBOX"},
     "noop": {"op": "noop"},
     "store3del": {"op": "store", "set": "3", "mode": "+", "flags": "\\Deleted"},
+    "store2flag": {"op": "store", "set": "2", "mode": "+", "flags": "\\Flagged"},
     "selother": {"op": "select", "m": "other"},
     "store12": {"op": "store", "set": "1:2", "mode": "+", "flags": "\\Flagged"},
     "selinbox": {"op": "select", "m": "INBOX"},
@@ -80,6 +81,8 @@ def scenarios(tier):
     S = [
         scn("expunge|fetch3", SEL_AB + DEL1, A=["expunge"], B=["fetch3"]),
         scn("expunge|store3", SEL_AB + DEL1, A=["expunge"], B=["store3del"]),
+        # a number that is valid before and after the EXPUNGE but names another message afterwards
+        scn("expunge|store2", SEL_AB + DEL1, A=["expunge"], B=["store2flag"]),
         scn("expunge|search", SEL_AB + DEL1, A=["expunge"], B=["search"]),
         scn("expunge|uidfetch", SEL_AB + DEL1, A=["expunge"], B=["uidfetch"]),
         scn("expunge|noop", SEL_AB + DEL1, A=["expunge"], B=["noop"]),
